@@ -22,6 +22,120 @@ from sa.context import callgraph
 from props.c11 import timer_runner
 
 
+def public_wiring_eval(run, model, ao, pe):
+    from sa import pureeval
+    from sa.util import module_level_names
+    run.rule('WIRING.public-eval', 'post_fifo/post_lifo evaluated over period in {None, 0, 0.0, 0.5}, times in {None, 0, 1, 3}, deferred in {None, True, False}: a plain post exactly when '
+                                   'period is None, otherwise one timed source with (times or 0, period, deferred or True, own queue kind) whose id is returned')
+    methods = {k: f.node for k, f in ao.methods.items()}
+    pparams = pe.params[1:]
+    modnames = module_level_names(ao.module)
+    decided = True
+    for nm, tagv in (('post_fifo', 'fifo'), ('post_lifo', 'lifo')):
+        f = ao.methods.get(nm)
+        bad, n_ev = None, 0
+        try:
+            for period in (None, 0, 0.0, 0.5):
+                for times in (None, 0, 1, 3):
+                    for deferred in (None, True, False):
+                        log = []
+
+                        def timed(*a, **k):
+                            b = dict(zip(pparams, a))
+                            b.update(k)
+                            log.append(('timed', b))
+                            return 'SOURCE-ID'
+                        sup = pureeval.Obj(post_fifo=lambda e_: log.append(('plain', 'fifo', e_)), post_lifo=lambda e_: log.append(('plain', 'lifo', e_)))
+                        me = pureeval.Obj(__world__=True)
+                        me.__dict__[pe.name] = timed
+                        ev_ = pureeval.Obj(signal_name='E')
+                        try:
+                            got = pureeval.call(f.node, [me, ev_, period, times, deferred], globals_={'super': (lambda: sup), 'None': None, 'True': True, 'False': False},
+                                                methods={k: v for k, v in methods.items() if k != pe.name}, strict_locals=True, module_names=modnames, mutable=True)
+                        except pureeval.Raised as ex_:
+                            got = 'raises ' + ex_.what
+                        n_ev += 1
+                        if period is None:
+                            want_log, want_ret = [('plain', tagv, ev_)], None
+                        else:
+                            want_log = [('timed', {pparams[0]: ev_, 'times': 0 if times is None else times, 'period': period,
+                                                   'deferred': True if deferred is None else deferred, 'queue_type': tagv})]
+                            want_ret = 'SOURCE-ID'
+                        okl = log == want_log and (got is want_ret or got == want_ret) and not (isinstance(got, str) and got.startswith('raises'))
+                        if okl and period is not None:
+                            # types matter: 0 must stay an int zero, True a bool
+                            b = log[0][1]
+                            okl = type(b['deferred']) is bool and b['period'] is period
+                        if not okl and bad is None:
+                            bad = ((period, times, deferred), log, got, want_log, want_ret)
+            def show(l):
+                return [(x[0], {k: (v if not isinstance(v, pureeval.Obj) else 'e') for k, v in x[1].items()}) if x[0] == 'timed' else (x[0], x[1]) for x in l]
+            run.inst('WIRING.public-eval', f, '%s over %d argument combinations' % (nm, n_ev), bad is None,
+                     '' if bad is None else ('%s(e, period=%r, times=%r, deferred=%r) does %s and returns %r; expected %s and %r' %
+                                             (nm, bad[0][0], bad[0][1], bad[0][2], show(bad[1]), bad[2], show(bad[3]), bad[4])), obligation=True)
+        except AnalysisError as ex_:
+            run.note('%s is outside the evaluator\'s fragment (%s): its wiring is decided structurally' % (nm, ex_))
+            decided = False
+    return decided
+
+
+
+def public_wiring_structural(run, model, ao, pe):
+    for nm, tagv in (('post_fifo', 'fifo'), ('post_lifo', 'lifo')):
+        f = ao.methods.get(nm)
+        fd = local_defs(f.node)
+        calls = [c for c in shallow_calls(f.node) if isinstance(c.func, ast.Attribute) and 'post_event' in c.func.attr]
+        if len(calls) != 1:
+            raise AnalysisError('%s: timed branch call not found' % nm)
+        c = calls[0]
+        amap = {}
+        pparams = pe.params[1:]
+        for i, a in enumerate(c.args):
+            amap[pparams[i]] = a
+        for kw in c.keywords:
+            amap[kw.arg] = kw.value
+        ok = all(isinstance(amap.get(k), ast.Name) and amap[k].id == k for k in ('times', 'period', 'deferred')) and \
+            isinstance(amap.get(pe.params[1]), ast.Name) and amap[pe.params[1]].id == f.params[1]
+        run.inst('WIRING.timer', f, '%s forwards (e, times, period, deferred)' % nm, ok, '' if ok else 'forwards %s' % {k: norm(v) for k, v in amap.items()}, node=c, obligation=True)
+        ok = const_str(amap.get('queue_type')) == tagv
+        run.inst('WIRING.timer', f, '%s passes tag %r' % (nm, tagv), ok, '' if ok else '%s passes tag %s' % (nm, norm(amap.get('queue_type')) if amap.get('queue_type') is not None else None), node=c, obligation=True)
+        # defaults
+        dflt = {}
+        for st in f.node.body:
+            if isinstance(st, ast.If):
+                cp = compare_parts(st.test)
+                if cp and isinstance(cp[0], ast.Name) and cp[1] is ast.Is and isinstance(cp[2], ast.Constant) and cp[2].value is None and len(st.body) == 1 \
+                        and isinstance(st.body[0], ast.Assign) and isinstance(st.body[0].targets[0], ast.Name) and st.body[0].targets[0].id == cp[0].id:
+                    dflt[cp[0].id] = st.body[0].value
+        ok = isinstance(dflt.get('times'), ast.Constant) and dflt['times'].value == 0 and isinstance(dflt.get('deferred'), ast.Constant) and dflt['deferred'].value is True
+        run.inst('WIRING.timer', f, '%s defaults: times None -> 0, deferred None -> True' % nm, ok,
+                 '' if ok else 'defaults are %s' % {k: norm(v) for k, v in dflt.items()}, obligation=True)
+        # returned id is what __post_event returned
+        # path rule: every return reachable from the __post_event call hands back that call's result (other paths made no timed source)
+        gf = cfg_of(f)
+        ncall = [n for n in gf.nodes if n.kind not in ('entry', 'exit', 'xexit', 'def') and any(x is c for x in n.calls())]
+        rnodes = [n for n in gf.nodes if n.kind == 'stmt' and isinstance(n.ast, ast.Return)]
+        ok = bool(ncall)
+        n_after = 0
+        for r in rnodes:
+            if not ncall or not (r is ncall[0] or gf.exists_path(ncall[0], r)):
+                continue
+            n_after += 1
+            v = r.ast.value
+            if v is c:
+                continue
+            if isinstance(v, ast.Name) and isinstance(ncall[0].ast, ast.Assign) and ncall[0].ast.value is c and \
+                    any(isinstance(t, ast.Name) and t.id == v.id for t in ncall[0].ast.targets):
+                redefs = [o for o in gf.nodes if o is not ncall[0] and o.kind in ('stmt', 'for') and
+                          any(isinstance(t, ast.Name) and isinstance(t.ctx, ast.Store) and t.id == v.id for t in ast.walk(o.ast if o.kind == 'stmt' else o.stmt.target))]
+                if not any(gf.exists_path(ncall[0], o) and gf.exists_path(o, r) for o in redefs):
+                    continue
+            ok = False
+        falls = [p_ for p_, lab in gf.pred[gf.exit] if lab != 'return' and ncall and (p_ is ncall[0] or gf.exists_path(ncall[0], p_))]
+        ok = ok and n_after >= 1 and not falls
+        run.inst('WIRING.timer', f, '%s returns the source id' % nm, ok, 'the id of the timed source is not returned', obligation=True)
+
+
 def check(run, model, tier):
     run.explanation = ('Counting argument for the timer thread established from its CFG: path counts per loop iteration (one post, one increment), '
                        'the comparison operator and operands of the self-termination test, the literal initial value of the counter, and def-use '
@@ -202,60 +316,10 @@ def check(run, model, tier):
     a0, a1 = sargs.elts[0], sargs.elts[1]
     ok = isinstance(a0, ast.Name) and any(x is spec_ctor for x in pdefs.get(a0.id, [])) and dotted(a1) == a0.id + '.deferred'
     run.inst('WIRING.timer', pe, 'thread receives (spec, spec.deferred, 0)', ok, 'thread args are %s' % norm(sargs), node=spawn, obligation=True)
-    # ---- public methods
-    for nm, tagv in (('post_fifo', 'fifo'), ('post_lifo', 'lifo')):
-        f = ao.methods.get(nm)
-        fd = local_defs(f.node)
-        calls = [c for c in shallow_calls(f.node) if isinstance(c.func, ast.Attribute) and 'post_event' in c.func.attr]
-        if len(calls) != 1:
-            raise AnalysisError('%s: timed branch call not found' % nm)
-        c = calls[0]
-        amap = {}
-        pparams = pe.params[1:]
-        for i, a in enumerate(c.args):
-            amap[pparams[i]] = a
-        for kw in c.keywords:
-            amap[kw.arg] = kw.value
-        ok = all(isinstance(amap.get(k), ast.Name) and amap[k].id == k for k in ('times', 'period', 'deferred')) and \
-            isinstance(amap.get(pe.params[1]), ast.Name) and amap[pe.params[1]].id == f.params[1]
-        run.inst('WIRING.timer', f, '%s forwards (e, times, period, deferred)' % nm, ok, '' if ok else 'forwards %s' % {k: norm(v) for k, v in amap.items()}, node=c, obligation=True)
-        ok = const_str(amap.get('queue_type')) == tagv
-        run.inst('WIRING.timer', f, '%s passes tag %r' % (nm, tagv), ok, '' if ok else '%s passes tag %s' % (nm, norm(amap.get('queue_type')) if amap.get('queue_type') is not None else None), node=c, obligation=True)
-        # defaults
-        dflt = {}
-        for st in f.node.body:
-            if isinstance(st, ast.If):
-                cp = compare_parts(st.test)
-                if cp and isinstance(cp[0], ast.Name) and cp[1] is ast.Is and isinstance(cp[2], ast.Constant) and cp[2].value is None and len(st.body) == 1 \
-                        and isinstance(st.body[0], ast.Assign) and isinstance(st.body[0].targets[0], ast.Name) and st.body[0].targets[0].id == cp[0].id:
-                    dflt[cp[0].id] = st.body[0].value
-        ok = isinstance(dflt.get('times'), ast.Constant) and dflt['times'].value == 0 and isinstance(dflt.get('deferred'), ast.Constant) and dflt['deferred'].value is True
-        run.inst('WIRING.timer', f, '%s defaults: times None -> 0, deferred None -> True' % nm, ok,
-                 '' if ok else 'defaults are %s' % {k: norm(v) for k, v in dflt.items()}, obligation=True)
-        # returned id is what __post_event returned
-        # path rule: every return reachable from the __post_event call hands back that call's result (other paths made no timed source)
-        gf = cfg_of(f)
-        ncall = [n for n in gf.nodes if n.kind not in ('entry', 'exit', 'xexit', 'def') and any(x is c for x in n.calls())]
-        rnodes = [n for n in gf.nodes if n.kind == 'stmt' and isinstance(n.ast, ast.Return)]
-        ok = bool(ncall)
-        n_after = 0
-        for r in rnodes:
-            if not ncall or not (r is ncall[0] or gf.exists_path(ncall[0], r)):
-                continue
-            n_after += 1
-            v = r.ast.value
-            if v is c:
-                continue
-            if isinstance(v, ast.Name) and isinstance(ncall[0].ast, ast.Assign) and ncall[0].ast.value is c and \
-                    any(isinstance(t, ast.Name) and t.id == v.id for t in ncall[0].ast.targets):
-                redefs = [o for o in gf.nodes if o is not ncall[0] and o.kind in ('stmt', 'for') and
-                          any(isinstance(t, ast.Name) and isinstance(t.ctx, ast.Store) and t.id == v.id for t in ast.walk(o.ast if o.kind == 'stmt' else o.stmt.target))]
-                if not any(gf.exists_path(ncall[0], o) and gf.exists_path(o, r) for o in redefs):
-                    continue
-            ok = False
-        falls = [p_ for p_, lab in gf.pred[gf.exit] if lab != 'return' and ncall and (p_ is ncall[0] or gf.exists_path(ncall[0], p_))]
-        ok = ok and n_after >= 1 and not falls
-        run.inst('WIRING.timer', f, '%s returns the source id' % nm, ok, 'the id of the timed source is not returned', obligation=True)
+    # ---- public methods: what post_fifo/post_lifo do with (period, times, deferred) is decided by evaluating them (finite evaluator; the timed-post function and
+    # the plain post of the base class are recording stubs) over None / zero / ordinary values of each argument; the structural reading is the fall-back
+    if not public_wiring_eval(run, model, ao, pe):
+        public_wiring_structural(run, model, ao, pe)
     # __post_event returns thread.name which is what is tracked
     rets = [n for n in walk_shallow(pe.node) if isinstance(n, ast.Return)]
     tracked = [c for c in shallow_calls(pe.node) if isinstance(c.func, ast.Attribute) and c.func.attr == 'PostedEvent']
